@@ -25,7 +25,7 @@ Translate the header above the HiFiber loop nest
 """
 
 from sympy import Symbol  # type: ignore
-from typing import Iterable, Optional, Set
+from typing import Iterable, List, Optional, Set
 
 from teaal.hifiber import *
 from teaal.ir.metrics import Metrics
@@ -192,8 +192,23 @@ class Header:
         # If at least one rank is not available, we need an explicit shape
         if not all(avail) or self.metrics is not None:
             # TODO: Test that this removes the partitioning
-            unpart_ranks = [part.get_root_name(
-                rank) for rank in output.get_ranks()]
-            args.append(TransUtils.build_shape(unpart_ranks))
+            shape: List[Expression] = []
+            for rank in output.get_ranks():
+                root = part.get_root_name(rank)
+
+                # The extent of a flattened rank is the product of the
+                # extents of the ranks it combines
+                if part.is_flattened(root):
+                    roots = [part.get_root_name(src)
+                             for src in part.unpack(root)]
+                    rank_shape: Expression = EVar(roots[0])
+                    for src_root in roots[1:]:
+                        rank_shape = EBinOp(rank_shape, OMul(), EVar(src_root))
+                    shape.append(rank_shape)
+
+                else:
+                    shape.append(EVar(root))
+
+            args.append(AParam("shape", EList(shape)))
 
         return args
